@@ -4,8 +4,8 @@ case: ( kind b c gz pattern ( (envname envvalue) ... ) file ( (path bytes) ... )
 All paths are relative to the case's private directory (the harness's cwd during the case)."""
 
 RULE = ("exhaustive part: base in {0,1,3} x count in {0..4} x every presence mask of pre-existing archives "
-        "over the indices base-1..base+count (the two never-touched neighbours included) x 6 pattern shapes "
-        "(index in file name, in a directory component, repeated, behind a $ENV directory, inside a $ENV "
+        "over the indices base-1..base+count (the two never-touched neighbours included) x 7 pattern shapes "
+        "(index in file name, in a directory component, in both, repeated, behind a $ENV directory, inside a $ENV "
         "variable name, .gz) with bystander files, count+2 successive write+roll operations, full recursive "
         "listing compared after every roll; then u32-edge bases (base+count around 2^32, incl. the remaining "
         "debug-overflow panic), the delete roller, and random cases (count <= 6, random masks, random "
@@ -33,6 +33,7 @@ PATTERNS = [
     "$ENV{C07D}/a.{}",
     "$ENV{C07N{}}.log",
     "z/a.{}.gz",
+    "arch/{}/a.{}.log",
 ]
 
 
